@@ -480,6 +480,9 @@ func c08(c *Ctx) {
 	c.Rule("R8", "E4 role agreement", "exponential collect methods: positive/negative bucket roles agree in delta and cumulative (= C07.R7)", 2)
 	ruleSignRoles(c, ax, "R8")
 
+	c.Rule("R11", "E3 must-pass (shared with C02.R12)", "every collect method walks its own values on every path: a cumulative value is never what the destination held from an earlier (or another stream's) collection", 8)
+	ruleCollectRebuilds(c, ax, "R11")
+
 	c.Rule("R10", "E3 must-pass (shared with C07.R8)", "exponential buckets: a window grown inside spare capacity is zeroed before use (a cumulative point that was down-scaled and grows again must not report counts none of its deltas contained)", 2)
 	ruleExpoWindowZeroed(c, ax, "R10")
 
